@@ -64,7 +64,13 @@ fn storage_case(seed: u64, run: u64, source: Vec<u8>, faults: Vec<String>, inter
     let mut scn = Scenario::new(&source);
     scn.interpreted = interpreted;
     scn.fuel = 1500;
-    scn.stdin.bytes = Bytes(script());
+    // mostly a long script of next / print reg; sometimes stdin is closed from the start, or runs
+    // dry after a few lines (a program that reads more than there is must still end)
+    scn.stdin.bytes = Bytes(match run % 8 {
+        3 => Vec::new(),
+        6 => b"n\nhello\n".to_vec(),
+        _ => script(),
+    });
     scn.storage_faults = faults.clone();
     let mut c = Case::new("C15", "storage", seed, run, scn);
     c.config = "faulted".to_owned();
